@@ -65,7 +65,7 @@ CLAIMS = {
         technique="property-based testing (rapid): metamorphic relation between two worlds differing only in foreign-namespace objects",
     ),
     "C10": dict(
-        text="Generated Gateway API worlds are synced by the real controller; an independent evaluation of the admission rules (class, parentRef group/kind/namespace/sectionName, allowedRoutes kinds and namespaces Same/All/Selector) gives the expected host/path -> backend table, per-backend servers with zero/non-zero weight and TCP ports, which must equal what the written maps, backend sections and TCP frontends say - in both directions.",
+        text="Generated Gateway API worlds are synced by the real controller; an independent evaluation of the admission rules (class, parentRef group/kind/namespace/sectionName, allowedRoutes kinds and namespaces Same/All/Selector) gives the expected host/path -> backend table, per-backend servers with zero/non-zero weight and TCP ports, which must equal what the written maps, backend sections and TCP frontends say - in both directions. Matches with header conditions are requested with their headers and must reach their backend, judged where Gateway API precedence and the controller's lookup order agree.",
         design_ref="DESIGN.md section 3, C10",
         note="Reference written from the Gateway API rules and the documented limitations (listener hostname overrides, only Gateway parents); only http requests are routed; v1beta1/v1alpha2 HTTPRoutes share the converter code and are not generated.",
         technique="property-based testing (rapid): differential against an independent reference evaluation of Gateway API admission",
@@ -89,25 +89,25 @@ CLAIMS = {
         technique="stateful property-based testing (rapid): invariant on the reload counter of a simulated HAProxy + slot-layout invariant after reloads",
     ),
     "C12": dict(
-        text="Faults are injected at the observable boundaries of an update (each file written, each runtime command, the reload result) into generated histories; the real Reconcile is then retried with an empty batch, as its RequeueAfter does, and the result must converge to a fresh controller's files, to files that hold exactly the model (nothing stale in a shard or map HAProxy loads) and to a running HAProxy equal to the files. The defects this exposed (commit on every return path; shard files skipped by the retry) were repaired in /repo.",
+        text="Faults are injected at the observable boundaries of an update (each file written, each runtime command, the reload result) into generated histories; the real Reconcile is then retried with an empty batch, as its RequeueAfter does, and the result must converge to a fresh controller's files, to files that hold exactly the model (nothing stale in a shard or map HAProxy loads) and to a running HAProxy equal to the files. The defects this exposed (commit on every return path; shard files skipped by the retry) were repaired in /repo. A third of the cases run with the reload queue of --reload-interval: reloads are requested through the queue, run by the real Services.reloadHAProxy, and may wait in the queue while the next update (and its fault) is reconciled.",
         design_ref="DESIGN.md section 3, C12",
         note="Failure points are sampled (file chosen by index among the files written so far and the fixed names), not enumerated per history; simhap and hapcfg are the trusted base; uses the real IngressReconciler.Reconcile and Services.ReconcileIngress through verif hooks.",
         technique="stateful property-based testing (rapid) with fault injection: differential against a fresh controller after the retry",
     ),
     "C19": dict(
-        text="Generated keyword lists and snippet texts (grammar over first tokens, whitespace forms, multi-line, CRLF, several annotations merging into one backend) go through the whole controller; the backend section written must drop every snippet with a disabled first token as a whole and keep every clean one verbatim, while global ConfigMap snippets stay.",
+        text="Generated keyword lists and snippet texts (grammar over first tokens, whitespace forms, multi-line, CRLF, several annotations merging into one backend) go through the whole controller; the backend section written must drop every snippet with a disabled first token as a whole and keep every clean one verbatim, while global ConfigMap snippets stay. In a share of the cases the keyword list reaches the controller as the value of --disable-config-keywords, written with blanks around the commas, through the controller's own option handling (config.CreateWithConfig).",
         design_ref="DESIGN.md section 3, C19",
         note="The reference tokenisation is the documented one (first token after leading blanks and tabs); exotic separators accept both outcomes so the check cannot alarm on them.",
         technique="property-based testing (rapid): two-sided oracle (must-drop / must-keep) on the written backend section",
     ),
     "C17": dict(
-        text="The signer's issue/skip/store decision is checked on generated certificate states against an independent reference (expiry window, SAN coverage, client outcomes); the acme work queue is checked on generated ingress histories through the real converters and AcmeUpdate: adds and removes per reconciliation must equal the difference of the storages the cluster asks for. A defect (domain added in place to a shared storage) was repaired in /repo.",
+        text="The signer's issue/skip/store decision is checked on generated certificate states against an independent reference (expiry window, SAN coverage, client outcomes); the acme work queue is checked on generated ingress histories through the real converters and AcmeUpdate: adds and removes per reconciliation must equal the difference of the storages the cluster asks for. A third part drives the real signer with generated sequences of AcmeAccount calls (two accounts, removal) against a local ACME account endpoint, with faults while the key is read or the account is requested: whenever the presented account can be loaded it must be, and a missing certificate then produces exactly one order. Two defects (domain added in place to a shared storage; an account presented again after a removal or a failed replacement never loaded) were repaired in /repo.",
         design_ref="DESIGN.md section 3, C17",
-        note="The acme protocol client and the challenge server are outside (client is a stub); leader election is a stub flag; the hooked Services (real ReconcileIngress) is never leader, so acme histories run through ctlsim's mirror of ReconcileIngress.",
+        note="The acme protocol client and the challenge server are outside for the signer and queue parts (client is a stub; the account part uses the real client against a minimal local ACME server: directory, nonce, account, refused orders); leader election is a stub flag; the hooked Services (real ReconcileIngress) is never leader, so acme histories run through ctlsim's mirror of ReconcileIngress.",
         technique="property-based testing (rapid): decision-table style oracle for the signer; stateful model (set difference of wanted storages) for the queue",
     ),
     "C13": dict(
-        text="Generated arrival schedules exercise the real rate limiters at real instants; scheduled runs are derived with a small model of the delaying queue from bracketed When() calls and checked for minimum spacing, coalescing and bounded lateness; the real queues are then driven with the same schedules and checked one-sidedly (never early, never more runs, the last notification is served). The reload limiter defect was repaired in /repo.",
+        text="Generated arrival schedules exercise the real rate limiters at real instants; scheduled runs are derived with a small model of the delaying queue from bracketed When() calls and checked for minimum spacing, coalescing and bounded lateness; the real queues are then driven with the same schedules and checked one-sidedly (never early, never more runs, the last notification is served); a third part drives the controller's own enqueue sites (informer events of watchers that ask for partial and for full syncs, the leader subscriber) against the queue and limiter built the way SetupWithManager builds them, with a counting oracle in which requests of one kind that arrive while one is pending share its run. The reload limiter defect was repaired in /repo.",
         design_ref="DESIGN.md section 3, C13",
         note="Schedules are sampled at a few dozen millisecond scale; arbitrary preemption inside client-go's queue is not enumerated; verdicts are jitter-proof by construction (brackets, one-sided).",
         technique="property-based testing (rapid) over arrival schedules with a reference queue model and one-sided checks on the real queue",
